@@ -228,7 +228,8 @@ def r_dup(w, F1, F2):
 
 def _ign(w):
     w.pattern_sets = [list(W.DEFAULT_IGNORE) + IGN_PATTERNS]
-    w.extra_nested_args = IGN_ARGS
+    # nested roots get the un-anchored patterns only: "B/skip" is meant relative to the outer root
+    w.extra_nested_args = IGN_ARGS[:4]
 
 
 def r_ign(w, F1, F2):
@@ -313,7 +314,7 @@ def seal(run, wid, tree, nested, nmode, recipe, F1, F2, pre=None):
         fn(w, F1, F2)
         if nmode in ("late", "regen"):
             for i, nr in enumerate(nested):
-                w.create(os.path.join(w.root, nr), [others[(i + 1) % len(others)]], w.extra_nested_args)
+                w.create(os.path.join(w.root, nr), [others[(i + 1) % len(others)]], w.extra_nested_args, expect=(0, 11) if recipe == "failed11" else (0,))
     except SetupFailed:
         return None
     return w
@@ -544,39 +545,59 @@ def judge(run, cid, w, res, expect, m, inp, opts=""):
         )
 
 
-def check_world(run, w, meta, level="full", spells=("abs",), optsets=((),), key_extra=()):
-    """the unchanged tree and every (or a probe subset of the) mutation, under every spelling / option set"""
+STD_KINDS = {"edit", "flip", "rename", "renorm", "remove", "addfile", "adddir", "rmdir", "swap"}
+
+
+def select(w, muts, level):
+    """full: everything; std: one mutation of every basic kind on every entry; probe: see probe_subset"""
+    if level == "full":
+        return muts
+    std = [m for m in muts if m.kind in STD_KINDS and not m.mid.startswith(("flip0", "flipM"))]
+    return std if level == "std" else probe_subset(w, std)
+
+
+def dangling(root):
+    for dp, dns, fns in os.walk(root):
+        for n in dns + fns:
+            p = os.path.join(dp, n)
+            if os.path.islink(p) and not os.path.exists(p):
+                return True
+    return False
+
+
+def check_world(run, w, meta, level="full", combos=(("abs", ()),), key_extra=()):
+    """the unchanged tree and every selected mutation, under every (root spelling, verify options) combination"""
     wid = w.wid
     pristine = sig(w.root)
     stable = w.stable()
-    muts = enum_mutations(w)
-    if level == "probe":
-        muts = probe_subset(w, muts)
-    for spell in spells:
-        for opts in optsets:
-            suffix = "" if (spell == "abs" and not opts) else f"/{spell}{''.join(opts)}"
-            ostr = (" ".join(opts) + " ") if opts else ""
-            cid = f"{wid}/ident{suffix}"
-            inp = dict(meta, mutation=None, spelling=spell, options=list(opts), history=w.gens)
-            if run.want(cid):
-                exp = 0 if stable else None
+    muts = select(w, enum_mutations(w), level)
+    links = any(v[0] == "l" for v in pristine.values())
+    for spell, opts in combos:
+        suffix = "" if (spell == "abs" and not opts) else f"/{spell}{''.join(opts)}"
+        ostr = (" ".join(opts) + " ") if opts else ""
+        cid = f"{wid}/ident{suffix}"
+        inp = dict(meta, mutation=None, spelling=spell, options=list(opts), history=w.gens)
+        if run.want(cid):
+            exp = 0 if stable else None
+            res = vdh(w, opts, spell)
+            run.case(cid, (wid, "ident", spell, opts) + key_extra if exp is not None else None, sample={"case": cid, "exit": res[0], "expected": exp})
+            judge(run, cid, w, res, exp, None, inp, ostr)
+        for m in muts:
+            cid = f"{wid}/{m.mid}{suffix}"
+            if not run.want(cid):
+                continue
+            m.do()
+            try:
+                if links and dangling(w.root):
+                    continue  # a symlink without target is outside the statement's trees (create refuses it as well)
+                cur = sig(w.root)
+                novel = all(s != cur for s in w.sigs)
+                exp = 12 if (w.has_dh and novel) else None
                 res = vdh(w, opts, spell)
-                run.case(cid, (wid, "ident", spell, opts) + key_extra if exp is not None else None, sample={"case": cid, "exit": res[0], "expected": exp})
-                judge(run, cid, w, res, exp, None, inp, ostr)
-            for m in muts:
-                cid = f"{wid}/{m.mid}{suffix}"
-                if not run.want(cid):
-                    continue
-                m.do()
-                try:
-                    cur = sig(w.root)
-                    novel = all(s != cur for s in w.sigs)
-                    exp = 12 if (w.has_dh and novel) else None
-                    res = vdh(w, opts, spell)
-                finally:
-                    m.undo()
-                run.case(cid, (wid, m.mid, spell, opts) + key_extra if exp is not None else None, sample={"case": cid, "exit": res[0], "expected": exp})
-                judge(run, cid, w, res, exp, m, dict(inp, mutation=m.kind, path=m.rel), ostr)
+            finally:
+                m.undo()
+            run.case(cid, (wid, m.mid, spell, opts) + key_extra if exp is not None else None, sample={"case": cid, "exit": res[0], "expected": exp})
+            judge(run, cid, w, res, exp, m, dict(inp, mutation=m.kind, path=m.rel), ostr)
     if sig(w.root) != pristine:
         raise RuntimeError(f"driver bug: world {wid} not restored after its mutations")
     shutil.rmtree(w.tmp, ignore_errors=True)
@@ -596,6 +617,26 @@ def pick_f2(fsets, i):
 
 
 # ------------------------------------------------------------------------------------------------ parts
+QUICK_STD = {
+    ("flat", 0),
+    ("single", 0),
+    ("emptyfolder", 0),
+    ("onlydirs", 1),
+    ("deep", 0),
+    ("deep", 3),
+    ("names", 0),
+    ("prefix", 2),
+    ("levels", 1),
+    ("case", 0),
+    ("dups", 1),
+    ("wide3", 1),
+    ("dash", 0),
+    ("link", 1),
+    ("lookalike", 1),
+}
+QUICK_BOTH_MODES = {("deep", 3), ("levels", 1), ("wide3", 1)}
+
+
 def part_mutations(run, fsets):
     """A: every tree x nested placement x nested format mode, one full generation, every mutation"""
     thorough = run.tier == "thorough"
@@ -604,16 +645,21 @@ def part_mutations(run, fsets):
         if tree in ("ign", "big"):
             continue
         for ni, nested in enumerate(NESTED[tree]):
-            modes = ["same"] if not nested else (NMODES if thorough else ["same", "other"])
+            if not nested:
+                modes = ["same"]
+            elif thorough:
+                modes = NMODES
+            elif (tree, ni) in QUICK_BOTH_MODES:
+                modes = ["same", "other"]
+            else:
+                modes = [["other", "same"][k % 2]]
             for nmode in modes:
-                if thorough:
-                    sets = list(range(len(fsets)))
-                elif tree == "deep" and ni == 0:
+                if thorough or (tree == "deep" and ni == 0):
                     sets = list(range(len(fsets)))
                 else:
                     sets = [k]
                 k += 1
-                for fi in sets:
+                for si, fi in enumerate(sets):
                     F1, F2 = pick_f2(fsets, fi)
                     wid = f"mut/{tree}/{ni}/{nmode}/{'+'.join(F1)}"
                     if not wanted_world(run, wid):
@@ -621,26 +667,30 @@ def part_mutations(run, fsets):
                     w = seal(run, wid, tree, nested, nmode, "one", F1, F2)
                     if w is None:
                         continue
-                    level = "full" if (not thorough or fi < 6 or tree in ("deep", "flat")) else "probe"
+                    if thorough:
+                        level = "full" if (fi < 6 or tree in ("deep", "flat")) else "std"
+                    else:
+                        level = "std" if ((tree, ni) in QUICK_STD and si == 0) else "probe"
                     check_world(run, w, {"tree": tree, "nested": nested, "nested_mode": nmode, "recipe": "one", "formats": F1}, level)
 
 
 def part_histories(run, fsets):
-    """B: every history recipe; full mutation set on a flat folder and on the deep tree with 2 nested levels"""
+    """B: every history recipe; whole mutation set on a flat folder and on the deep tree with 2 nested levels"""
     thorough = run.tier == "thorough"
-    full_on = [("flat", 0), ("deep", 3)]
-    probe_on = [("levels", 1), ("prefix", 2), ("emptyfolder", 0), ("names", 1), ("deep", 1)]
+    key = {"two-fmt", "n+dh", "dh+n", "dh+sf", "sf+dh"}
+    rotate = [("levels", 1), ("prefix", 2), ("emptyfolder", 0), ("names", 1), ("deep", 1), ("wide3", 1), ("dups", 2), ("onlydirs", 1)]
     k = 0
-    for recipe in RECIPES:
+    for ri, recipe in enumerate(RECIPES):
         if recipe == "one":
             continue
         ign = recipe.startswith("ign") or recipe == "neg-later"
         if ign:
-            targets = [("ign", 0, "full"), ("ign", 1, "full" if thorough else "probe")]
+            targets = [("ign", 0, "full" if thorough else "probe"), ("ign", 1, "full" if thorough else ("std" if recipe == "ign" else "probe"))]
         elif thorough:
-            targets = [(t, ni, "full") for t in TREES if t not in ("ign", "big") for ni in range(len(NESTED[t]))]
+            targets = [(t, ni, "full" if t in ("flat", "deep", "levels") else "std") for t in TREES if t not in ("ign", "big") for ni in range(len(NESTED[t]))]
         else:
-            targets = [(t, ni, "full") for t, ni in full_on] + [(t, ni, "probe") for t, ni in probe_on]
+            t2, n2 = rotate[ri % len(rotate)]
+            targets = [("flat", 0, "std"), ("deep", 3, "std" if recipe in key else "probe"), (t2, n2, "probe")]
         for tree, ni, level in targets:
             nested = NESTED[tree][ni]
             if not nested:
@@ -648,7 +698,7 @@ def part_histories(run, fsets):
             elif thorough:
                 modes = NMODES
             else:
-                modes = ["other", NMODES[2 + k % 3]] if level == "full" else [NMODES[k % 5]]
+                modes = [NMODES[k % 5]]
             for nmode in modes:
                 k += 1
                 F1, F2 = pick_f2(fsets, k)
@@ -658,16 +708,21 @@ def part_histories(run, fsets):
                 w = seal(run, wid, tree, nested, nmode, recipe, F1, F2)
                 if w is None:
                     continue
-                lv = level if (not thorough or tree in ("flat", "deep", "ign", "levels")) else "probe"
-                check_world(run, w, {"tree": tree, "nested": nested, "nested_mode": nmode, "recipe": recipe, "formats": F1, "formats2": F2}, lv)
+                check_world(run, w, {"tree": tree, "nested": nested, "nested_mode": nmode, "recipe": recipe, "formats": F1, "formats2": F2}, level)
 
 
 def part_spellings(run, fsets):
     """C: how the root is spelled (at create and at verify), cwd, -v, -h <recorded format>"""
     thorough = run.tier == "thorough"
-    targets = [("deep", 1, "other", "two-fmt"), ("flat", 0, "same", "one"), ("emptyfolder", 0, "same", "one"), ("names", 2, "same", "dh+n")]
+    targets = [("deep", 1, "other", "two-fmt"), ("flat", 0, "same", "one"), ("emptyfolder", 0, "same", "one")]
     if thorough:
-        targets += [("levels", 1, "other", "many12"), ("prefix", 2, "late", "dh+sf"), ("wide3", 1, "regen", "n+dh"), ("dash", 1, "same", "one")]
+        targets += [
+            ("names", 2, "same", "dh+n"),
+            ("levels", 1, "other", "many12"),
+            ("prefix", 2, "late", "dh+sf"),
+            ("wide3", 1, "regen", "n+dh"),
+            ("dash", 1, "same", "one"),
+        ]
     for ti, (tree, ni, nmode, recipe) in enumerate(targets):
         F1, F2 = pick_f2(fsets, 3 + ti)
         nested = NESTED[tree][ni]
@@ -676,19 +731,21 @@ def part_spellings(run, fsets):
             w = seal(run, wid, tree, nested, nmode, recipe, F1, F2)
             if w is not None:
                 recorded = sorted(set(F1) | (set(F2) if recipe in ("two-fmt", "many12", "n+dh") else set()))
-                optsets = [(), ("-v",)] + [("-h", f) for f in (recorded if thorough else recorded[:2])]
+                optsets = [("-v",)] + [("-h", f) for f in recorded] + [("-v", "-h", recorded[0])]
                 if thorough:
-                    optsets += [("-v", "-h", recorded[0])]
+                    combos = [(s, o) for s in SPELLS for o in [()] + optsets]
+                else:
+                    combos = [(s, ()) for s in SPELLS] + [("abs", o) for o in optsets] + [("dot", ("-v",))]
                 check_world(
                     run,
                     w,
                     {"tree": tree, "nested": nested, "nested_mode": nmode, "recipe": recipe, "formats": F1},
-                    "full" if thorough and tree in ("deep", "flat") else "probe",
-                    spells=SPELLS,
-                    optsets=optsets,
+                    "std" if thorough and tree in ("deep", "flat") else "probe",
+                    combos=combos,
                 )
         # the history itself written through an unusual spelling of the root
-        for cs in ("dot", "slash", "rel", "updown"):
+        spellings = ("dot", "slash", "rel", "updown")
+        for cs in spellings if thorough else (spellings[ti % 4], spellings[(ti + 2) % 4]):
             wid = f"spell-create/{tree}/{ni}/{cs}/{'+'.join(F1)}"
             if not wanted_world(run, wid):
                 continue
@@ -702,7 +759,8 @@ def part_spellings(run, fsets):
                 w.has_dh = True
             except SetupFailed:
                 continue
-            check_world(run, w, {"tree": tree, "nested": nested, "create_spelling": cs, "formats": F1}, "probe", spells=("abs", "dot") if not thorough else SPELLS)
+            combos = [(s, ()) for s in (SPELLS if thorough else ("abs", "dot"))]
+            check_world(run, w, {"tree": tree, "nested": nested, "create_spelling": cs, "formats": F1}, "probe", combos=combos)
 
 
 def part_special(run, fsets):
@@ -744,7 +802,7 @@ def part_special(run, fsets):
             os.environ["TZ"] = z_verify
             time.tzset()
             if w is not None:
-                check_world(run, w, {"tree": tree, "tz_create": z_create, "tz_verify": z_verify, "formats": F1}, "probe", optsets=((), ("-v",)))
+                check_world(run, w, {"tree": tree, "tz_create": z_create, "tz_verify": z_verify, "formats": F1}, "probe", combos=(("abs", ()), ("abs", ("-v",))))
     finally:
         if old_tz is None:
             os.environ.pop("TZ", None)
@@ -838,7 +896,9 @@ def part_crash(run, fsets):
         if rc != 0 or not total:
             run.violation(base + "/setup", f"uninterrupted second create in a subprocess exits {rc}: {err!r}", "setup/create")
             continue
-        ks = range(1, total + 1)
+        ks = list(range(1, total + 1))
+        if not thorough and total > 8:
+            ks = sorted({1 + round(j * (total - 1) / 7) for j in range(8)})
         for k in ks:
             cid = f"{base}/k{k}"
             if not run.want(cid):
@@ -927,7 +987,7 @@ def random_world(rnd):
 
 def part_random(run, fsets):
     """F: seeded random trees / placements / recipes beyond the fixed pool"""
-    n = 12 if run.tier == "quick" else 250
+    n = 6 if run.tier == "quick" else 250
     plain = [r for r in RECIPES if not r.startswith("ign") and r != "neg-later"]
     for i in range(n):
         rnd = random.Random(f"{run.seed}/{i}")
@@ -942,7 +1002,7 @@ def part_random(run, fsets):
         if w is None:
             continue
         w.tree = {k: (v if isinstance(v, str) else repr(v)) for k, v in spec.items()}
-        check_world(run, w, {"tree": w.tree, "nested": nested, "nested_mode": nmode, "recipe": recipe, "formats": F1, "formats2": F2}, "full")
+        check_world(run, w, {"tree": w.tree, "nested": nested, "nested_mode": nmode, "recipe": recipe, "formats": F1, "formats2": F2}, "std" if run.tier == "quick" else "full")
 
 
 def main():
@@ -958,7 +1018,7 @@ def main():
         "U+2028, option-like names, duplicates, file symlinks, files of 2^20-1/2^20/2^20+1 bytes), <= 3 nested histories up to 3 deep, "
         "17 history recipes (1-12 generations; -n, -sf, differing format sets, failed generation, repeated -h, -i/-ii patterns, "
         "negation added later), 5 format sets quick / 22 thorough, 7 root spellings, -v / -h, 2-5 time zones with mtimes around DST "
-        "switches, a crash at every file-system event of a second create, 12 (quick) / 250 (thorough) seeded random worlds",
+        "switches, a crash at 8 (quick) / every (thorough) file-system event of a second create, 6 (quick) / 250 (thorough) seeded random worlds; quick runs the basic mutation kinds on 15 worlds and a probe subset (root-level, deepest, one per nested history, one per class) elsewhere",
     )
     fsets = S.format_sets(run.tier)
     for part in (part_mutations, part_histories, part_spellings, part_special, part_crash, part_random):
